@@ -270,11 +270,12 @@ func (d *Discovery) discover(ctx context.Context) bool {
 	verifEv(d, "discover.enter", "")
 	defer verifEv(d, "discover.exit", "")
 	size := d.set.Size()
-	want := d.set.Limit() - size
-	if want == 0 {
+	// the limit is soft: the set may hold more peers than the limit, and the subtraction below is unsigned
+	if size >= d.set.Limit() {
 		log.Debugw("reached soft peer limit, skipping discovery", "topic", d.topic, "size", size)
 		return true
 	}
+	want := d.set.Limit() - size
 	// TODO @renaynay: eventually, have a mechanism to catch if wanted amount of peers
 	//  has not been discovered in X amount of time so that users are warned of degraded
 	//  FN connectivity.
